@@ -18,7 +18,7 @@ from .core.loader import ProgramDB, AnalysisError
 from .core.resolve import CallGraph, clear_caches
 from .core.report import CheckContext, finish
 
-CLAIMED = ['C01', 'C02', 'C03', 'C04', 'C05', 'C06', 'C07', 'C08', 'C09', 'C10',
+CLAIMED = ['C01', 'C02', 'C03', 'C04', 'C05', 'C06', 'C07', 'C08', 'C09', 'C10', 'C11', 'C12',
            'C13', 'C14', 'C15', 'C16', 'C17', 'C18', 'C19', 'C20']
 
 
